@@ -12,7 +12,7 @@ ToSet(q) == {q[k] : k \in 1..Len(q)}
 Ev == Traces[tid][l]
 
 RetOf(j) ==
-    CASE j.r = "nameid"  -> [r |-> "nameid", n |-> j.n, new |-> j.new, amb |-> last'.ret.amb]
+    CASE j.r = "nameid"  -> [r |-> "nameid", n |-> j.n, new |-> j.new, amb |-> IF "amb" \in DOMAIN last'.ret THEN last'.ret.amb ELSE FALSE]
       [] j.r = "nameids" -> [r |-> "nameids", ns |-> ToSet(j.ns)]
       [] j.r = "user"    -> [r |-> "user", u |-> j.u]
       [] OTHER -> [r |-> j.r]
